@@ -36,6 +36,11 @@ from vf.core import HOLDS, VIOLATION, INCONCLUSIVE
 from vf.symf import P
 
 ENGINE = "S"
+
+
+def _wr(run, ob, payload):
+    """replay file of this part (the aggregator dispatches on engine_part)"""
+    return run.write_replay(ob, dict(payload, engine_part="S"))
 FUNCS = ["proofs/src/plonk/prover.rs::create_proof", "proofs/src/plonk/prover.rs::compute_trace",
          "proofs/src/plonk/prover.rs::compute_instances", "proofs/src/plonk/prover.rs::parse_advices",
          "proofs/src/plonk/prover.rs::finalise_proof", "proofs/src/plonk/verifier.rs::parse_trace",
@@ -227,7 +232,7 @@ def check_config(run, tn, np_, nbc, plain):
                   if div else f"structure: prepare_error={d.get('prepare_error')} consumed={d.get('verifier_consumed_records')}/{d.get('proof_records')}")
         if replay(payload):
             ob.set(VIOLATION, detail + "; replay: real create_proof/prepare over Fq+KZG+Blake2b rejects the honest proof",
-                   solver=r.solver, solver_s=r.time_s, replay=run.write_replay(ob, payload))
+                   solver=r.solver, solver_s=r.time_s, replay=_wr(run, ob, payload))
         else:
             ob.set(INCONCLUSIVE, detail + "; the real stack accepted the honest proof (counterexample does not replay)")
     else:
@@ -304,7 +309,7 @@ def check_e2e(run, name, m):
         payload = {"kind": "e2e", "member": member, "queries": bad}
         if replay(payload):
             ob.set(VIOLATION, f"claimed evaluation differs from the committed polynomial for {bad}", solver=r.solver,
-                   solver_s=r.time_s, replay=run.write_replay(ob, payload))
+                   solver_s=r.time_s, replay=_wr(run, ob, payload))
         else:
             ob.set(INCONCLUSIVE, f"mismatch on {bad} did not reproduce")
     else:
@@ -352,6 +357,8 @@ def check(run):
 def replay(payload):
     """The same shape on the real stack (Fq, KZG unsafe_setup, Blake2b). Reproduces iff the verifier
     rejects the honest proof (MockProver must accept the witness)."""
+    if payload.get("engine_part") not in (None, "S") or payload.get("kind") not in ['honest-rejected', 'e2e']:
+        return None
     symf.build()
     m = payload["member"]
     if payload["kind"] == "e2e":
